@@ -21,7 +21,7 @@ RULE = ("files from the SpikeGLX writer model: {3A,3B1,3B2,NP2.1,NP2.4,NPultra,n
 ASSUMPTIONS = ["pairs of two index arrays are not generated (NumPy pairs them pointwise, the reader gathers orthogonally; the property "
                "names neither)", "values agree to float32 rounding of 'float32(raw) x factor': |got-exp| <= 2^-22 |exp|; sync exact",
                "mtscomp (dependency) is observed only through the reader"]
-REQUIRED = {"getitem_calls": 300, "read_calls": 50, "values_compared": 300, "geometry_rows_checked": 20, "cbin_files": 3, "negstep_slices": 10, "lf_band_files": 10, "inconsistent_metadata_files": 10}
+REQUIRED = {"getitem_calls": 300, "read_calls": 50, "values_compared": 300, "geometry_rows_checked": 20, "cbin_files": 3, "negstep_slices": 10, "lf_band_files": 10, "inconsistent_metadata_files": 10, "uuid_named_with_sibling_band": 10}
 CASE_TIMEOUT = 60.0
 RTOL = 2.0 ** -22
 
@@ -104,10 +104,25 @@ def run_case(case):
         nontrivial = (not np.array_equal(order, np.arange(rec.nc))) and len(np.unique(rec.s2v[:n])) > 1
         geom_expected = True
     b = G.write(rec, d)
+    uuid_named = kind != "nidq" and rng.random() < 0.2
+    if uuid_named:
+        # dataset-style names: every file carries its own UUID, and the OTHER band of the same run (other gains, other rate, other length) lies in the
+        # same folder under its own UUID-tagged names - each binary is read with ITS band's metadata
+        import uuid as _uuid
+        u = [str(_uuid.UUID(bytes=rng.bytes(16), version=4)) for _ in range(4)]
+        other = "lf" if rec.stream == "ap" else "ap"
+        rec_o = G.make(rng, kind=kind, stream=other, sites=rec.sites, encoding=enc, gains=G.random_gains(rng), ns=int(rng.integers(20, 200)), aimax=aimax, maxint=maxint)
+        bo = G.write(rec_o, d, name=f"run_g0_t0.imec0.{other}.{u[2]}")
+        bo.with_suffix(".meta").rename(d / f"run_g0_t0.imec0.{other}.{u[3]}.meta")
+        nb = d / f"run_g0_t0.imec0.{rec.stream}.{u[0]}.bin"
+        b.rename(nb)
+        b.with_suffix(".meta").rename(d / f"run_g0_t0.imec0.{rec.stream}.{u[1]}.meta")
+        b = nb
+        res.count("uuid_named_with_sibling_band")
     cal = rec.raw[:, order].astype(np.float64) * rec.s2v[order][None, :]
     syncmask = np.zeros(rec.nc, bool)
     syncmask[rec.nc - rec.nsync:] = True     # sync columns stay last under both orders
-    label0 = f"{kind}/{getattr(rec, 'stream', 'nidq')}/{enc}/{mode}/n={n}/sort={sort}/{'cbin' if cbin else 'bin'}"
+    label0 = f"{kind}/{getattr(rec, 'stream', 'nidq')}/{enc}/{mode}/n={n}/sort={sort}/{'cbin' if cbin else 'bin'}" + ("/UUID names, other band alongside" if uuid_named else "")
     seams = None
     # metadata announcing another length than the file holds (recording cut short / still growing): the recording is what the FILE holds, whether or
     # not the reader is asked to keep quiet about the disagreement
